@@ -317,7 +317,38 @@ pub struct OpResult {
     pub nonfinite_seconds: u64,
 }
 
+/// The synchronisation settings as the daemon gets them: rendered as the `[synchronization]` table of the
+/// configuration file and read back through the crate's deserialisers (single number where both directions agree,
+/// otherwise the map form; "inf" = no limit; accumulated threshold 0 = off, as documented).
 pub fn sync_config(s: &SyncSpec) -> SynchronizationConfig {
+    let part = |v: Option<f64>| match v {
+        None => "\"inf\"".to_string(),
+        Some(x) => format!("{x:?}"),
+    };
+    let both = |f: Option<f64>, b: Option<f64>| {
+        if f == b && f.is_none_or(|x| x.to_bits() & 1 == 0) {
+            part(f)
+        } else {
+            format!("{{ forward = {}, backward = {} }}", part(f), part(b))
+        }
+    };
+    // accumulated: the file format has no way to say "limit 0"; such a spec is built directly (below)
+    let text = format!(
+        "minimum-agreeing-sources = {}\nstartup-step-panic-threshold = {}\nsingle-step-panic-threshold = {}\naccumulated-step-panic-threshold = {:?}\n",
+        s.min_agree,
+        both(s.startup_fwd, s.startup_bwd),
+        both(s.single_fwd, s.single_bwd),
+        s.accumulated.unwrap_or(0.0),
+    );
+    if s.accumulated != Some(0.0) {
+        if let Ok(c) = toml::from_str::<SynchronizationConfig>(&text) {
+            return c;
+        }
+    }
+    sync_config_direct(s)
+}
+
+pub fn sync_config_direct(s: &SyncSpec) -> SynchronizationConfig {
     let mut c = SynchronizationConfig::default();
     c.minimum_agreeing_sources = s.min_agree as usize;
     let d = |v: Option<f64>| v.map(NtpDuration::from_seconds);
